@@ -35,12 +35,13 @@ Judge(w, i) == (IF cur[w].id # i THEN {"foreign-response"} ELSE {}) \cup
                (IF cur[w].st = "answered" THEN {"delivered-twice"} ELSE {}) \cup
                (IF cur[w].st = "reset" THEN {"delivered-after-reset"} ELSE {})
 
-New(w) == /\ ~dead /\ cur[w].st # "waiting"
-          /\ n' = n + 1
-          /\ table' = With(table, IdOf(n + 1), w)
-          /\ cur' = [cur EXCEPT ![w] = [id |-> IdOf(n + 1), st |-> "waiting"]]
-          /\ hist' = Append(hist, [op |-> "new", w |-> w])
-          /\ UNCHANGED <<bad, dead>>
+NewWith(w, i) == /\ ~dead /\ cur[w].st # "waiting"
+                 /\ n' = n + 1
+                 /\ table' = With(table, i, w)
+                 /\ cur' = [cur EXCEPT ![w] = [id |-> i, st |-> "waiting"]]
+                 /\ hist' = Append(hist, [op |-> "new", w |-> w])
+                 /\ UNCHANGED <<bad, dead>>
+New(w) == NewWith(w, IdOf(n + 1))     \* the design: ids come from the per-connection counter
 
 (* a response frame carrying id i *)
 Handle(i) == IF i \notin DOMAIN table THEN UNCHANGED <<table, cur, bad>>
